@@ -17,6 +17,8 @@ L2 = "FteikVerif.Proofs.GenEquivLoops2"
 L3 = "FteikVerif.Proofs.GenEquivLoops3"
 W2 = "FteikVerif.Proofs.GenEquivWhole2"
 W2R = "FteikVerif.Proofs.GenWholeReal"
+W3 = "FteikVerif.Proofs.GenEquivWhole3"
+SRCW3 = "FteikVerif.Props.SourceWhole3"
 SRCW = "FteikVerif.Props.SourceWhole2"
 SRCS = "FteikVerif.Props.SourceSolver"
 SRC7 = "FteikVerif.Props.SourceC07"
@@ -27,6 +29,9 @@ SOLVER2 = ["Fteik.gen_tAna", "Fteik.gen_tAnad", "Fteik.gen_delta", "Fteik.gen_sw
 SOLVER3 = ["Fteik.gen_tAna3", "Fteik.gen_tAnad3", "Fteik.gen_sweep3", "Fteik.gen_norm3d", "Fteik.gen_sweep3d", "Fteik.gen_fteik3d_sweeps"]
 WHOLE2 = ["Fteik.gen_loop1", "Fteik.gen_loop2", "Fteik.gen_loop3", "Fteik.gen_loop4", "Fteik.gen_loop5", "Fteik.gen_loop7",
           "Fteik.gen_if1_offgrid", "Fteik.gen_tail", "Fteik.gen_fteik2d_eq", "Fteik.gen_fteik2d_eq_real"]
+WHOLE3 = ["Fteik.gen3_loop1", "Fteik.gen3_loop3", "Fteik.gen3_tail", "Fteik.gen_fteik3d_eq", "Fteik.gen_fteik3d_eq_real"]
+WHOLE3_PROPS = ["Fteik.Source_C07_fteik3d_monotone", "Fteik.Source_C07_fteik3d_converges",
+                "Fteik.Source_C11_fteik3d_tt_independent_of_grad", "Fteik.Source_C07_fteik3d_monotone_real"]
 WHOLE2_PROPS = ["Fteik.Source_C07_fteik2d_monotone", "Fteik.Source_C07_fteik2d_converges",
                 "Fteik.Source_C11_fteik2d_tt_independent_of_grad", "Fteik.Source_C07_fteik2d_monotone_real",
                 "Fteik.Source_C11_fteik2d_tt_independent_of_grad_real"]
@@ -46,14 +51,14 @@ KV = ["V2._vinterp2d", "V3._vinterp3d", "Common.dist2d", "Common.dist3d", "Commo
 # property -> (modules, theorems, kernels)
 TABLE = {
     # operator formulas: full equivalence with the hand model the algebraic theorems are about
-    "C01": ([S2, S3, L2, L3, RE, SRCS, SRC7, W2, W2R, SRCW], SOLVER2 + SOLVER3 + WHOLE2 + WHOLE2_PROPS + ["Fteik.farLaw_real", "Fteik.Source_C01_t_ana_eq_dist",
+    "C01": ([S2, S3, L2, L3, RE, SRCS, SRC7, W2, W3, W2R, SRCW, SRCW3], SOLVER2 + SOLVER3 + WHOLE2 + WHOLE3 + WHOLE2_PROPS + WHOLE3_PROPS + ["Fteik.farLaw_real", "Fteik.Source_C01_t_ana_eq_dist",
                                   "Fteik.Source_C01_t_ana3_eq_dist", "Fteik.Source_C01_delta_exact", "Fteik.gen_fteik2d_sweeps",
                                   "Fteik.Source_C07_nsweep_monotone", "Fteik.Source_C07_nsweep_converges"], K2 + K3),
-    "C02": ([S2, S3, L2, L3, RE, W2, W2R], SOLVER2 + SOLVER3 + WHOLE2 + ["Fteik.farLaw_real"], K2 + K3),
+    "C02": ([S2, S3, L2, L3, RE, W2, W3, W2R], SOLVER2 + SOLVER3 + WHOLE2 + WHOLE3 + ["Fteik.farLaw_real"], K2 + K3),
     "C04": ([S2, L2, ST, RE, W2, W2R], SOLVER2 + STRUCT[:2] + WHOLE2 + ["Fteik.farLaw_real"], K2),
-    "C05": ([S2, S3, L2, L3, RE, SRCS, W2, W2R], SOLVER2 + SOLVER3 + WHOLE2 + ["Fteik.farLaw_real", "Fteik.Source_C05_sweep_slowness",
+    "C05": ([S2, S3, L2, L3, RE, SRCS, W2, W3, W2R], SOLVER2 + SOLVER3 + WHOLE2 + WHOLE3 + ["Fteik.farLaw_real", "Fteik.Source_C05_sweep_slowness",
                                   "Fteik.Source_C05_sweep_length"], K2 + K3),
-    "C18": ([S2, S3, L2, L3, IN, RE, W2, W2R], SOLVER2 + SOLVER3 + WHOLE2 + INTERP + ["Fteik.farLaw_real"], K2 + K3 + KI),
+    "C18": ([S2, S3, L2, L3, IN, RE, W2, W3, W2R], SOLVER2 + SOLVER3 + WHOLE2 + WHOLE3 + INTERP + ["Fteik.farLaw_real"], K2 + K3 + KI),
     # the whole solvers as translated: decision logic of the domain check, vzero
     "C03": ([GS], GENSOLVER, ["F2.fteik2d", "F3.fteik3d"]),
     "C13": ([GS], GENSOLVER, ["F2.fteik2d", "F3.fteik3d"]),
